@@ -280,6 +280,10 @@ fn eval_cohort(n: usize, p: usize, scratch: &Scratch) -> Option<Viol> {
 }
 
 fn eval_cohort_records(n: usize, p: usize, records: usize, scratch: &Scratch) -> Option<Viol> {
+    eval_cohort_records_at(n, p, records, "9", scratch)
+}
+
+fn eval_cohort_records_at(n: usize, p: usize, records: usize, precision: &str, scratch: &Scratch) -> Option<Viol> {
     let mut cs = crate::gen::CallSet::new(n);
     let mut expect_skipped = 0usize;
     for r in 0..records {
@@ -294,7 +298,7 @@ fn eval_cohort_records(n: usize, p: usize, records: usize, scratch: &Scratch) ->
     }
     let vcf = crate::gen::to_vcf(&cs).0;
     let ps = p.to_string();
-    let o = run_sfs(&["create", "-p", &ps, "--precision", "9"], Stdin::Bytes(&vcf), scratch);
+    let o = run_sfs(&["create", "-p", &ps, "--precision", precision], Stdin::Bytes(&vcf), scratch);
     let stderr = o.stderr_str();
     let verdict: Result<(), String> = (|| {
         if !o.ok() {
@@ -320,7 +324,7 @@ fn eval_cohort_records(n: usize, p: usize, records: usize, scratch: &Scratch) ->
         (
             format!("C10|cli|cohort-mass-not-conserved|n{}{}", if n > 85 { ">85" } else { "<=85" }, if records > 8 { "|long" } else { "" }),
             format!("{n} samples, {records} records, create -p {p}: {e}"),
-            J::obj([("kind", J::s("c10-cohort")), ("samples", J::u(n)), ("individuals", J::u(p)), ("records", J::u(records))]),
+            J::obj([("kind", J::s("c10-cohort")), ("samples", J::u(n)), ("individuals", J::u(p)), ("records", J::u(records)), ("precision", J::s(precision))]),
         )
     })
 }
@@ -586,6 +590,25 @@ pub fn run(tier: Tier) -> i32 {
             extra: vec![],
         });
     }
+    // the raw-value constructor of the genotype type decides what is counted and what is skipped: only
+    // 0, 1 and 2 are genotypes (a source that passes allele-index sums of hundreds relies on it)
+    {
+        use sfs_core::input::genotype::Genotype;
+        let mut raws: Vec<usize> = (0..=70_000).collect();
+        raws.extend([1usize << 31, 1 << 32, (1 << 32) + 1, usize::MAX]);
+        let bad: Vec<usize> = raws.iter().copied().filter(|&r| Genotype::try_from_raw(r).is_some() != (r <= 2)).collect();
+        if let Some(first) = bad.first() {
+            rep.violation("C10|lib|try_from_raw".to_string(), format!("Genotype::try_from_raw accepts or rejects wrongly for {} raw values, first {first}: {:?}", bad.len(), Genotype::try_from_raw(*first)), J::obj([("kind", J::s("c10-raw")), ("raw", J::u(*first))]));
+        }
+        rep.part(Part {
+            name: "lib: Genotype::try_from_raw".into(),
+            evaluations: raws.len() as u64,
+            nontrivial: raws.len() as u64,
+            note: "every raw value 0..=70 000 and 2^31, 2^32, 2^32+1, the maximum: a genotype exactly for 0, 1, 2".into(),
+            exhaustive: true,
+            extra: vec![],
+        });
+    }
     // outputs of several thousand cells
     {
         let wj: Vec<Option<&str>> = vec![None, Some("17,16,17"), Some("17,15,16")];
@@ -611,12 +634,18 @@ pub fn run(tier: Tier) -> i32 {
         for v in res.into_iter().flatten() {
             rep.violation(v.0, v.1, v.2);
         }
+        // few cells holding tens of thousands each, printed with 15 and 17 decimals
+        for prec in ["15", "17"] {
+            if let Some(v) = eval_cohort_records_at(20, 1, n_long, prec, &scratch) {
+                rep.violation(format!("{}|precision-{prec}", v.0), v.1, v.2);
+            }
+        }
         rep.transitions += (cj.len() * n_long) as u64;
         rep.part(Part {
             name: "cli: long projecting cohorts".into(),
             evaluations: cj.len() as u64,
             nontrivial: cj.len() as u64,
-            note: format!("{n_long} records of one population of 20 / 34 / 60 samples with 0..10 missing samples per record, -p in {{10, 7, 16, 20}}: success, finite non-negative entries, mass + skipped = records (relative 1e-9), skipped exactly the records with fewer called samples than the target"),
+            note: format!("{n_long} records of one population of 20 / 34 / 60 samples with 0..10 missing samples per record, -p in {{10, 7, 16, 20}} at precision 9, and -p 1 (three cells of tens of thousands each) at precision 15 and 17: success, finite non-negative entries, mass + skipped = records (relative 1e-9), skipped exactly the records with fewer called samples than the target"),
             exhaustive: true,
             extra: vec![("records".into(), J::u(n_long))],
         });
@@ -667,7 +696,8 @@ pub fn replay(case: &J) -> Option<Vec<String>> {
     if case.get("kind").and_then(|k| k.as_str()) == Some("c10-cohort") {
         let scratch = Scratch::new("c10r");
         let records = case.get("records").and_then(|r| r.as_i64()).unwrap_or(8) as usize;
-        return Some(eval_cohort_records(case.get("samples")?.as_i64()? as usize, case.get("individuals")?.as_i64()? as usize, records, &scratch).into_iter().map(|(k, w, _)| format!("{k} :: {w}")).collect());
+        let precision = case.get("precision").and_then(|p| p.as_str()).unwrap_or("9").to_string();
+        return Some(eval_cohort_records_at(case.get("samples")?.as_i64()? as usize, case.get("individuals")?.as_i64()? as usize, records, &precision, &scratch).into_iter().map(|(k, w, _)| format!("{k} :: {w}")).collect());
     }
     let stream = parse_stream(case.get("stream")?.as_str()?)?;
     let mode = match case.get("mode")?.as_str()? {
